@@ -923,3 +923,87 @@ Proof.
   intros w faults fl tn ohf d H. unfold invoke_named.
   destruct (lookup (rs w d) magefilesDir) as [[b|sub|t]|] eqn:E; try reflexivity. exfalso. exact (H sub eq_refl).
 Qed.
+
+(* ------------------------------------------------------------------------------------------ *)
+(* -compile <out>                                                                              *)
+
+Lemma run_exit_step : forall w faults fl l s s' st c, run w faults fl l s = (s', Some (st, c)) ->
+  exists s0, exec w faults fl st s0 = Exit c s'.
+Proof.
+  induction l as [|x r IH]; intros s s' st c H; cbn [run] in H; [discriminate|].
+  destruct (exec w faults fl x s) as [s1|c1 s1] eqn:E.
+  - eapply IH. exact H.
+  - injection H as <- <- <-. exists s. exact E.
+Qed.
+
+Lemma compiled_exit0 : forall w faults fl d, compiled fl (invoke_dir_full w faults fl d) = true ->
+  o_exit (invoke_dir_full w faults fl d) = 0.
+Proof.
+  intros w faults fl d H. unfold compiled, invoke_dir_full in *.
+  destruct (run w faults fl all_steps (init_state d)) as [s r] eqn:R. cbn [o_at o_exit] in *.
+  destruct r as [[st c]|]; [|rewrite Bool.andb_false_r in H; discriminate].
+  destruct st; try (rewrite Bool.andb_false_r in H; discriminate).
+  destruct (run_exit_step w faults fl all_steps _ _ _ _ R) as [s0 E]. cbn [exec] in E.
+  destruct (negb (s_reuse s0) && f_compile fl); [injection E as <- _; reflexivity|discriminate].
+Qed.
+
+(* whatever fails: when the run does not get to the `return 0` after the build, nothing that
+   existed changes - the entry at the output path included; when it does, exactly that entry is
+   (re)written and the exit status is 0 *)
+Lemma compile_exact : forall w faults fl out bin inner d,
+  w_fixed w = true -> w_cleanup w = true -> f_keep fl = false -> nolink d -> out <> mainfile ->
+  invoke_compile w faults fl out bin inner d =
+    if compiled fl (invoke_dir_full w faults fl d)
+    then (set out (install bin inner (lookup d out)) (remove_stale d), 0)
+    else (remove_stale d, snd (invoke_dir w faults fl d)).
+Proof.
+  intros w faults fl out bin inner d Hf Hc K Hd Ho. unfold invoke_compile, output_after.
+  pose proof (p_clean w faults fl Hf Hc d K Hd) as C. unfold invoke_dir in C. cbn [fst] in C.
+  destruct (compiled fl (invoke_dir_full w faults fl d)) eqn:W.
+  - rewrite (compiled_exit0 w faults fl d W), C.
+    rewrite (stale_lookup_other d out Ho). reflexivity.
+  - rewrite C. destruct (lookup (remove_stale d) out); reflexivity.
+Qed.
+
+Lemma compile_failure_changes_nothing : forall w faults fl out bin inner d,
+  w_fixed w = true -> w_cleanup w = true -> f_keep fl = false -> lookup d mainfile = None -> out <> mainfile ->
+  compiled fl (invoke_dir_full w faults fl d) = false ->
+  fst (invoke_compile w faults fl out bin inner d) = d.
+Proof.
+  intros w faults fl out bin inner d Hf Hc K Hd Ho W.
+  rewrite compile_exact; try assumption; [|intros t E; congruence].
+  rewrite W. cbn [fst]. unfold remove_stale. rewrite Hd. reflexivity.
+Qed.
+
+Lemma compile_other_entries : forall w faults fl out bin inner d n,
+  w_fixed w = true -> w_cleanup w = true -> f_keep fl = false -> nolink d -> out <> mainfile ->
+  n <> out -> n <> mainfile ->
+  lookup (fst (invoke_compile w faults fl out bin inner d)) n = lookup d n.
+Proof.
+  intros w faults fl out bin inner d n Hf Hc K Hd Ho N1 N2.
+  rewrite compile_exact by assumption.
+  destruct (compiled fl (invoke_dir_full w faults fl d)); cbn [fst];
+    rewrite ?lookup_set_other by exact N1; apply stale_lookup_other; exact N2.
+Qed.
+
+Lemma output_elsewhere : forall fl o bin inner e, compiled fl o = false -> output_after fl o bin inner e = e.
+Proof. intros. unfold output_after. rewrite H. reflexivity. Qed.
+
+Lemma p_compile_exact : forall w faults fl, w_fixed w = true -> w_cleanup w = true -> forall out bin inner d,
+  f_keep fl = false -> nolink d -> out <> mainfile ->
+  invoke_compile w faults fl out bin inner d =
+    if compiled fl (invoke_dir_full w faults fl d)
+    then (set out (install bin inner (lookup d out)) (remove_stale d), 0)
+    else (remove_stale d, snd (invoke_dir w faults fl d)).
+Proof. intros. apply compile_exact; assumption. Qed.
+
+Lemma p_compile_failure : forall w faults fl, w_fixed w = true -> w_cleanup w = true -> forall out bin inner d,
+  f_keep fl = false -> lookup d mainfile = None -> out <> mainfile ->
+  compiled fl (invoke_dir_full w faults fl d) = false ->
+  fst (invoke_compile w faults fl out bin inner d) = d.
+Proof. intros. apply compile_failure_changes_nothing; assumption. Qed.
+
+Lemma p_compile_others : forall w faults fl, w_fixed w = true -> w_cleanup w = true -> forall out bin inner d n,
+  f_keep fl = false -> nolink d -> out <> mainfile -> n <> out -> n <> mainfile ->
+  lookup (fst (invoke_compile w faults fl out bin inner d)) n = lookup d n.
+Proof. intros. apply compile_other_entries; assumption. Qed.
